@@ -35,7 +35,9 @@ def unhexb(h):
     return b"" if h in ("-", "") else bytes.fromhex(h)
 
 
-def base_env(tmp, tz="UTC"):
+def base_env(tmp, tz="UTC", qt_locale=None):
+    """qt_locale: a locale name for Qt's QLocale::system() (LANG; Qt carries its own CLDR data, the C library need not know the
+    locale) while the C library's character set stays UTF-8 (LC_CTYPE=C.UTF-8)."""
     env = {k: v for k, v in os.environ.items()
            if k not in ("QT_LOGGING_RULES", "QT_MESSAGE_PATTERN", "QT_LOGGING_CONF",
                         "QT_LOGGING_DEBUG", "QT_FATAL_WARNINGS", "QT_FATAL_CRITICALS",
@@ -46,10 +48,13 @@ def base_env(tmp, tz="UTC"):
     env.update({
         "HOME": home, "XDG_CONFIG_HOME": home, "XDG_CONFIG_DIRS": home,
         "LC_ALL": "C.UTF-8", "LANG": "C.UTF-8", "TZ": tz, "QT_NO_GLIB": "1",
+        **({"LC_ALL": "", "LC_CTYPE": "C.UTF-8", "LANG": qt_locale} if qt_locale else {}),
         "ASAN_OPTIONS": "abort_on_error=1:detect_leaks=0:allocator_may_return_null=0:"
                         "handle_abort=1:detect_stack_use_after_return=0",
         "UBSAN_OPTIONS": "print_stacktrace=1:halt_on_error=1",
     })
+    if qt_locale:
+        env.pop("LC_ALL", None)
     return env
 
 
